@@ -20,7 +20,7 @@ from scipy.constants import pi
 
 from .devices import GET_EYE, SAMPLER, LPF
 from .typing import binary_sequence, electrical_signal, eye, gv, Array_Like
-from .utils import tic, toc, str2array, dec2bin, Q
+from .utils import tic, toc, str2array, dec2bin, Q, _soft_ser
 
 
 
@@ -500,7 +500,7 @@ def BER_analizer(mode: Literal['counter', 'estimator'], **kwargs):
         if decision == 'hard':
             Pe_sym = 1 - Q((um-I1)/s1) * (1-Q((um-I0)/s0))**(M-1)
         elif decision == 'soft':
-            Pe_sym = 1-1/(2*pi)**0.5*quad(lambda x: (1-Q((I1-I0+s1*x)/s0))**(M-1)*np.exp(-x**2/2),-np.inf,np.inf)[0]
+            Pe_sym = _soft_ser(I1-I0, s0, s1, M)
         return M/2/(M-1)*Pe_sym
 
     else:
@@ -566,7 +566,7 @@ def theory_BER(mu1: Union[float, ndarray], s0: Union[float, ndarray], s1: Union[
         raise ValueError("`M` must be a power of 2.")
 
     if decision == 'soft':
-        fun = np.vectorize( lambda mu1,s0,s1,M: 1-1/(2*pi)**0.5*quad(lambda x: (1-Q((mu1+s1*x)/s0))**(M-1)*np.exp(-x**2/2),-np.inf,np.inf)[0] )
+        fun = np.vectorize( lambda mu1,s0,s1,M: _soft_ser(mu1, s0, s1, M) )
     elif decision == 'hard':
         @np.vectorize
         def fun(mu1_,s0_,s1_,M_):
